@@ -11,6 +11,9 @@
 //	enc:    Encode_canonical(struct) == Encode_canonical(independently built map or
 //	        slice) in all five formats (direct oracle); the entries of the encoded
 //	        struct, split with codec.Raw, vs the Coq model's enc_struct (cases).
+//	hist:   one Encoder encoding many values (hist.go): reused Encoder == fresh Encoder ==
+//	        deep map/array model, five formats; pool: sfiRvFreeList get/put sequences vs the
+//	        Coq pool model (cases) and direct no-aliasing oracles.
 //	dec:    Decode(partial map / array) into a pre-populated struct sets exactly the
 //	        mentioned fields; unknown key => error iff ErrorIfNoField (direct oracle);
 //	        resulting struct vs the Coq model's dec_struct (cases).
@@ -936,13 +939,14 @@ func main() {
 	nEmpty := flag.Int("empty", 300, "values for the emptiness stream")
 	nEnc := flag.Int("enc", 150, "struct values for the encode stream (x5 formats)")
 	nDec := flag.Int("dec", 300, "decode cases")
+	nPool := flag.Int("pool", 60, "random-order operation sequences on the scratch-list pool (the nested ones are always run)")
 	cases := flag.String("cases", "/verif/build/c16/cases", "directory for the model case files")
 	flag.Parse()
 	if codec.VerifC16SafeMode() {
 		buildName = "safe"
 	}
 	r := vh.NewRng(vh.SeedFromEnv())
-	sum := vh.NewSummary("fields: struct declarations (reflect.StructOf: field kinds, codec/json tag forms, '-', options, _struct, embedding by value/pointer to depth 4, reused inner types, name collisions) + fixed corpus (unexported embedded, interface embedded, int keys); distinct by (field count, depth, embed multiplicity, _struct options, agrees-with-docs). empty: values x {recursive} x {container}; distinct by (kind, memory shape class, outcome). enc: declaration x value x {StructToArray, RecursiveEmptyCheck} x 5 formats; distinct by (format, field count, mode, quirk class, key type). dec: declaration x pre-populated value x partial map/array x ErrorIfNoField x format; distinct by (format, sizes, mode, outcome)")
+	sum := vh.NewSummary("fields: struct declarations (reflect.StructOf: field kinds, codec/json tag forms, '-', options, _struct, embedding by value/pointer to depth 4, reused inner types, name collisions) + fixed corpus (unexported embedded, interface embedded, int keys); distinct by (field count, depth, embed multiplicity, _struct options, agrees-with-docs). empty: values x {recursive} x {container}; distinct by (kind, memory shape class, outcome). enc: declaration x value x {StructToArray, RecursiveEmptyCheck} x 5 formats; distinct by (format, field count, mode, quirk class, key type). dec: declaration x pre-populated value x partial map/array x ErrorIfNoField x format; distinct by (format, sizes, mode, outcome). hist (seed-independent): nested general-encoder struct declarations (2-3 levels x flavours x container x position x key order) x Canonical x StructToArray x 5 formats x position in the life of one Encoder x way of encoding; distinct by all of these. pool: get/put sequences on sfiRvFreeList; distinct by sequence")
 	cv := vh.NewCases(*cases, casesHeader, "case", "mismatches", 40)
 	id := 0
 	fieldsStream(r.Fork(), *nFields, cv, sum, &id)
@@ -951,6 +955,8 @@ func main() {
 	decStream(r.Fork(), *nDec, cv, sum, &id)
 	keysStream(r.Fork(), sum)
 	readerSweep(sum)
+	histStream(sum)
+	poolStream(r.Fork(), *nPool, cv, sum, &id)
 	cv.Close()
 	sum.Print()
 }
